@@ -70,7 +70,7 @@ type HCase struct {
 	MixBad    bool       `json:"mix_bad,omitempty"`
 	Cht       bool       `json:"cht,omitempty"`
 	SelfCanon int        `json:"self_canon,omitempty"` // the chain already holds, as canonical at this height, a header with the SAME hash (stored by an earlier seal=false pass): 1 the header itself, 2 its variant without vote container and certificate
-	ParentRef int        `json:"parent_ref"` // index into Chain of the header whose hash is ParentHash; -1 = some other hash
+	ParentRef int        `json:"parent_ref"`           // index into Chain of the header whose hash is ParentHash; -1 = some other hash
 	Verdict   int        `json:"verdict"`
 	Err       string     `json:"err,omitempty"`
 	Batch     []int      `json:"batch_verdicts,omitempty"` // VerifyHeaders results for the prefix + header
